@@ -9,6 +9,7 @@ missing times), every set of used keys, every set of existing packs and every op
 Helper lemmas: `Rustic/Lemmas/Prune.lean`.
 -/
 import Rustic.Lemmas.Prune
+import Rustic.Lemmas.PruneExec
 import Rustic.Gen.Constants
 namespace Rustic.Props.C02
 open Rustic.Prune
@@ -27,6 +28,24 @@ theorem fromPack_counter_protocol (typed : Bool) (tpe : BlobType) (bs : List Blo
     ((fromPack typed tpe bs c).2.get k = some 0 ∧ k ∈ bs.map (keyOf typed) ∧ 0 < (fromPack typed tpe bs c).1.usedBlobs) ∨
     (occ typed k bs ≤ n ∧ (fromPack typed tpe bs c).2.get k = some (n + 1 - occ typed k bs)) :=
   (fromPack_counts typed tpe bs c).2 k n hk
+
+/-- (1a') **`stats_no_underflow`**: `SizeStats::unused_after_prune` (`unused - remove - repackrm`, evaluated inside the
+loop of `decide_repack` and when the repack pack size is chosen) never underflows: per blob type, what is booked as
+`remove` (packs decided `MarkDelete`) plus what is booked as `repackrm` (packs decided `Repack`) is part of `unused` —
+for *every* list of packs with *any* assignment of decisions, hence at every intermediate moment of planning (packs
+not decided yet count as `Undecided`), for sizes and for blob counts. -/
+theorem stats_no_underflow (ps : List PPack) (t : BlobType) :
+    (sizeStats ps t).remove + (sizeStats ps t).repackrm ≤ (sizeStats ps t).unused ∧
+    (blobStats ps t).remove + (blobStats ps t).repackrm ≤ (blobStats ps t).unused := by
+  constructor
+  · simp only [sizeStats]
+    apply sumBy_add_le
+    intro p
+    cases p.todo <;> simp
+  · simp only [blobStats]
+    apply sumBy_add_le
+    intro p
+    cases p.todo <;> simp
 
 /-- `count_used_blobs` saturates at `u8::MAX`: the counter of a used key is `min 255 (#occurrences)`. -/
 theorem count_saturates (typed : Bool) (keys : List Key) (ps : List PPack) (k : Key) (hk : k ∈ keys) :
@@ -161,20 +180,34 @@ theorem decision_table (typed : Bool) (kc : Consts) (o : Opts) (files : List Ind
           · rw [hc] at h1; simp at h1
         · exact e
 
-/-- Hypothesis of (3): the index file of every pack to repack is among those rebuilt (`filter_index_files` keeps an
-index file with any pack whose decision is not `Keep`); evaluated on every correspondence case. -/
+/-- the index file of every pack to repack is among those rebuilt. -/
 def RepackRebuilt (d : Decided) : Prop := ∀ p ∈ d.packs, p.todo = .repack → d.rebuild.contains p.index = true
+
+/-- **`filter_index_files` keeps what must change**: the index file of every pack whose decision is not `Keep` (and,
+without instant-delete, not `KeepMarked`) is rebuilt — for every accepted plan.  Derived from the model of
+`PrunePlan::new` (a pack's `index` is a position of the index-file list) and of `filter_index_files`. -/
+theorem index_of_changed_pack_rebuilt (typed : Bool) (kc : Consts) (o : Opts) (files : List IndexFile) (used : List Key)
+    (existing : List (Nat × Nat)) (d : Decided) (h : plan typed kc o files used existing = some d) :
+    ∀ p ∈ d.packs, p.todo ≠ .keep → (o.instantDelete = true ∨ p.todo ≠ .keepMarked) →
+      d.rebuild.contains p.index = true :=
+  fun _ hp hk hm => rebuilt_of_not_kept h hp hk hm
+
+/-- … in particular `RepackRebuilt` (formerly a hypothesis of (3), checked by the driver) is a theorem. -/
+theorem repack_rebuilt (typed : Bool) (kc : Consts) (o : Opts) (files : List IndexFile) (used : List Key)
+    (existing : List (Nat × Nat)) (d : Decided) (h : plan typed kc o files used existing = some d) :
+    RepackRebuilt d :=
+  fun _ hp ht => rebuilt_of_not_kept h hp (by rw [ht]; decide) (Or.inr (by rw [ht]; decide))
 
 /-- (3) **Execution covers every used key**: after `prune_repository` every used key is either in a pack that is kept
 (`Keep`) or brought back (`Recover`) — those packs are listed unmarked in the new index and are not removed — or its
 blob is among the blobs copied into new packs (`pack.blobs.retain(used_ids.remove(..))` keeps the first copy in
 execution order among the packs to repack of every key not already covered by a kept pack). -/
 theorem prune_covers_used_keys (typed : Bool) (kc : Consts) (o : Opts) (files : List IndexFile) (used : List Key)
-    (existing : List (Nat × Nat)) (d : Decided) (h : plan typed kc o files used existing = some d)
-    (hr : RepackRebuilt d) :
+    (existing : List (Nat × Nat)) (d : Decided) (h : plan typed kc o files used existing = some d) :
     ∀ k ∈ d.usedKeys,
       (∃ p ∈ d.packs, (p.todo = .keep ∨ p.todo = .recover) ∧ k ∈ p.blobs.map (keyOf typed)) ∨
       (∃ b ∈ (execute typed o d).repacked, keyOf typed b = k) := by
+  have hr : RepackRebuilt d := repack_rebuilt typed kc o files used existing d h
   intro k hk
   obtain ⟨p, hp, hmem, _, ht⟩ := used_key_attributed typed kc o files used existing d h k hk
   rcases ht with ht | ht | ht
@@ -271,10 +304,11 @@ theorem marked_packs_stay (typed : Bool) (kc : Consts) (o : Opts) (files : List 
 not remove it. -/
 theorem recover_brings_back (typed : Bool) (kc : Consts) (o : Opts) (files : List IndexFile) (used : List Key)
     (existing : List (Nat × Nat)) (d : Decided) (h : plan typed kc o files used existing = some d)
-    (p : PPack) (hp : p ∈ d.packs) (hm : p.mark = true) (hu : 0 < p.info.usedBlobs)
-    (hreb : d.rebuild.contains p.index = true) :
+    (p : PPack) (hp : p ∈ d.packs) (hm : p.mark = true) (hu : 0 < p.info.usedBlobs) :
     p.todo = .recover ∧ toIdx p (some o.now) ∈ (execute typed o d).newUnmarked := by
   have ht := (decision_table typed kc o files used existing d h p hp).2.2.2.2.1 hm hu
+  have hreb : d.rebuild.contains p.index = true :=
+    rebuilt_of_not_kept h hp (by rw [ht]; decide) (Or.inr (by rw [ht]; decide))
   refine ⟨ht, ?_⟩
   have hne : ¬ d.rebuild.isEmpty := by
     intro he; rw [List.isEmpty_iff] at he; rw [he] at hreb; simp at hreb
